@@ -257,8 +257,13 @@ let chk_spec w (ptok : ostring) (kc : char) : ostring =
   let gone = ref [] in
   for j = 0 to w.n - 1 do
     let s = w.tbl.(j) in
-    if s.bound && not (slot_alive w s) && s.kind = kc && s.parent = pk then
-      gone := (ostring_of_int j ^ ":0:-:0") :: !gone
+    if s.bound && not (slot_alive w s) && s.kind = kc && s.parent = pk then begin
+      (* the id of a deleted member matches nothing — unless a live member is NAMED like that id (a legal name) *)
+      let id = ostr (ids (nat_of_int s.oid)) in
+      match OLst.find_opt (fun e -> ostr (e_name e) = id) (children w.st p k) with
+      | Some x -> gone := (ostring_of_int j ^ ":1:" ^ ord_of w (e_oid x) ^ ":0") :: !gone
+      | None -> gone := (ostring_of_int j ^ ":0:-:0") :: !gone
+    end
   done;
   "cnt=" ^ ostring_of_int (OLst.length l) ^ " idx=" ^ ll ^ (if named then " byname=" ^ ll else "") ^ " byid=" ^ ll ^
   (if named then " hasn=" ^ ones else "") ^ " hasi=" ^ ones ^ " hash=" ^ ones ^ " enum=" ^ ll ^ " gone=" ^ brack (OLst.rev !gone)
@@ -304,10 +309,19 @@ let lchk_line w hk (sl : lslot) : ostring =
 
 let lchk_spec w hk (sl : lslot) : ostring =
   let h = holder w hk sl in
-  let l = (match find_ent w.st h with Some e -> OLst.map (ord_of w) (get_l sl e.e_links) | None -> []) in
+  let oids = (match find_ent w.st h with Some e -> get_l sl e.e_links | None -> []) in
+  let ms = OLst.filter_map (fun o -> find_ent w.st o) oids in
+  let l = OLst.map (ord_of w) oids in
   let ones = brack (OLst.map (fun _ -> "1") l) in
   let ll = brack l in
-  "cnt=" ^ ostring_of_int (OLst.length l) ^ " idx=" ^ ll ^ " byname=" ^ ll ^ " byid=" ^ ll ^ " hasn=" ^ ones ^
+  (* by name: names are unique per PARENT, the targets of one link container may have different parents
+     (entity sources): the lookup answers with the first member of that id, else the first of that name *)
+  let byname = OLst.map (fun t ->
+      let n = ostr (e_name t) in
+      match OLst.find_opt (fun x -> ostr (ids (e_idx x)) = n) ms with
+      | Some x -> ord_of w (e_oid x)
+      | None -> (match OLst.find_opt (fun x -> ostr (e_name x) = n) ms with Some x -> ord_of w (e_oid x) | None -> "-")) ms in
+  "cnt=" ^ ostring_of_int (OLst.length l) ^ " idx=" ^ ll ^ " byname=" ^ brack byname ^ " byid=" ^ ll ^ " hasn=" ^ ones ^
   " hasi=" ^ ones ^ " hash=" ^ ones ^ " enum=" ^ ll
 
 (* ---- one line in one world; returns the head ("OK v" / "ERR cls" / "UB why") ---- *)
